@@ -573,7 +573,7 @@ def jobs(tier):
                             continue
                         if N == 2 and (heavy and not (op == 'matmul' and (ka, kb) != ('PauliPolynomial', 'PauliPolynomial'))):
                             continue
-                    alts = [(0, 0)] if not thorough else [(0, 0), (1, 1), (0, 1)]
+                    alts = [(0, 0)] if not thorough else ([(0, 0), (1, 1), (0, 1)] if not (N == 2 and heavy) else [(0, 0)])
                     for (x, y) in alts:
                         ksa, ksb = pat(ka, x), pat(kb, y)
                         if op == 'matmul':
